@@ -21,7 +21,14 @@ Lemma fault_predicates_inhabited :
   /\ has_fault_wrong_arity w_f_F16c = true /\ has_fault_wrong_arity w_f_F16d = true
   /\ has_fault_wrong_arity w_f_F16e = true
   /\ has_fault_bad_parallel_loop w_f_F20a = true /\ has_fault_bad_parallel_loop w_f_F20b = true
-  /\ has_fault_bad_parallel_loop w_f_F20c = true /\ has_fault_bad_parallel_loop w_f_F20d = true.
+  /\ has_fault_bad_parallel_loop w_f_F20c = true /\ has_fault_bad_parallel_loop w_f_F20d = true
+  /\ has_fault_recursive_call w_D8_self_recursion = true /\ has_fault_recursive_call w_mutual_recursion = true
+  /\ has_fault_recursive_call w_recursion_through_parallel = true
+  /\ has_fault_recursive_call w_recursion_through_parloop = true
+  /\ has_fault_unknown_task w_D9_unknown_task_in_parallel_loop = true
+  /\ has_fault_wrong_arity w_parloop_wrong_arity = true
+  /\ has_fault_bad_limit w_D10_undeclared_limit = true /\ has_fault_bad_limit w_limit_unknown_attribute = true
+  /\ has_fault_bad_limit w_limit_string = true.
 Proof. vm_compute. repeat split; reflexivity. Qed.
 
 (* and none of them holds of the fault-free example *)
@@ -35,10 +42,11 @@ Lemma fault_predicates_false_on_good :
   /\ has_fault_no_start_task w_good_small = false /\ has_fault_undeclared_task_output w_good_small = false
   /\ has_fault_wrong_arity w_good_small = false /\ has_fault_bad_parallel_loop w_good_small = false
   /\ has_fault_literal_missing_attribute w_good_small = false
-  /\ has_fault_literal_unknown_attribute w_good_small = false.
+  /\ has_fault_literal_unknown_attribute w_good_small = false
+  /\ has_fault_recursive_call w_good_small = false /\ has_fault_bad_limit w_good_small = false.
 Proof. vm_compute. repeat split; reflexivity. Qed.
 
-(* under the guard of C16 "not accepted" is "reported with at least one message" *)
-Lemma reported_under_guard : forall p,
-  crash_free p = true -> validate p <> Ok [] -> reported p.
-Proof. intros p Hcf. exact (not_accepted_reported p (crash_free_verdict p Hcf)). Qed.
+(* for every AST of the grammar's shape "not accepted" is "reported with at least one message" *)
+Lemma reported_from_grammar : forall p,
+  from_grammar p = true -> validate p <> Ok [] -> reported p.
+Proof. intros p Hg. exact (not_accepted_reported p (from_grammar_verdict p Hg)). Qed.
